@@ -185,7 +185,7 @@ def _split_blocks(out):
     return {k: '\n'.join(v) for k, v in blocks.items()}
 
 
-def run_unit(repo, unit, contracts_dir, tier='quick', jobs=8, keep=False):
+def run_unit(repo, unit, contracts_dir, tier='quick', jobs=8, keep=False, known=()):
     """Kani harnesses (kinds K, Kb) through cargo kani; witness-search harnesses (kind W) natively, in
     parallel.  A W harness never proves anything: it only looks for a concrete input on which the real
     code violates the stated postcondition (reported as a violation with that input replayed)."""
@@ -217,7 +217,7 @@ def run_unit(repo, unit, contracts_dir, tier='quick', jobs=8, keep=False):
             wt = threading.Thread(target=lambda: wout.update(search_phase(d, feats, w_h, tier)))
             wt.start()
         if k_h:
-            _kani_phase(d, feats, k_h, jobs, res)
+            _kani_phase(d, feats, k_h, jobs, res, known)
         else:
             res['status'] = 'ok'
         if wt:
@@ -318,7 +318,7 @@ def search_phase(d, feats, w_h, tier):
     return out
 
 
-def _kani_phase(d, feats, harnesses, jobs, res):
+def _kani_phase(d, feats, harnesses, jobs, res, known=()):
     if True:
         env = dict(os.environ)
         env['CARGO_NET_OFFLINE'] = 'true'
@@ -407,6 +407,11 @@ def _kani_phase(d, feats, harnesses, jobs, res):
             res['status'] = 'violation'
             # counterexamples via concrete playback, then native replay
             for rec in res['failures']:
+                # a failure listed in known_findings.txt is reported as KNOWN-FINDING by the driver: no need
+                # to extract and replay its counterexample again on every run
+                if rec['name'] in known:
+                    rec['counterexample'] = None
+                    continue
                 get_counterexample(d, env, feats, rec)
         elif undecided:
             res['reason'] = '; '.join(undecided)
